@@ -229,7 +229,12 @@ class ParseError(Exception):
     pass
 
 
+NAMEMAP = {}
+
+
 def _f(s):
+    if s in NAMEMAP:
+        return NAMEMAP[s]
     m = re.fullmatch(r'f(\d+)', s)
     if not m:
         raise ParseError('field %r' % s)
